@@ -2,7 +2,7 @@
    The (cum, p) pairs of the five documented Gaussian models are pinned here; the harness
    re-derives them from the real crate on every run, so a change of the quantiser or of the
    coders' bit streams shows up as a correspondence failure. *)
-From CV Require Import Corr.Parse Model.Ans Model.AnsRef.
+From CV Require Import Corr.Parse Model.Ans Model.AnsRef Model.Range Model.RangeSpec.
 Open Scope Z_scope.
 
 (* symbols [23, -15, 78, 43, -69], DefaultLeakyQuantizer::new(-100..=100), PRECISION = 24 *)
@@ -18,8 +18,13 @@ Definition out_ws (ws : list N) : list Z := Z.of_nat (length ws) :: map nZ ws.
 (* ANS: encode_symbols_reverse pushes the LAST symbol first *)
 Definition readme_ans_words : list N := ans_ref 32 64 (rev readme_entries).
 
+(* range coder: symbols in order; words = digits of the seal point of the exact interval *)
+Definition readme_range_words : list N :=
+  spec_words {| rWB := 32; rSB := 64; rPB := 32 |} readme_entries.
+
 Definition run_docvec (inp : list Z) : list Z :=
   match inp with
   | 0 :: _ => pairs_out ++ out_ws readme_ans_words
+  | 1 :: _ => pairs_out ++ out_ws readme_range_words
   | _ => [PANIC]
   end.
